@@ -15,19 +15,35 @@ def is_meas(o):
     return o["cls"].startswith("Measure")
 
 
-def build(sf, spec):
-    """the real TDMProgram of a spec"""
+def build(sf, spec, params=None, share=False):
+    """the real TDMProgram of a spec.  `params`: list objects to hand to `context` (so that several
+    programs can share their parameter arrays); `share`: equal operations of the loop body are ONE
+    shared Operation instance applied several times (as in `bs = BSgate(p[0]); bs | ...; bs | ...`)."""
     from strawberryfields import ops
     prog = sf.TDMProgram(N=list(spec["N"]))
-    with prog.context(*[list(a) for a in spec["params"]], shift=spec["shift"]) as (p, q):
+    args_lists = params if params is not None else [list(a) for a in spec["params"]]
+    cache = {}
+    with prog.context(*args_lists, shift=spec["shift"]) as (p, q):
         for o in spec["ops"]:
-            args = [p[int(a[1:])] if isinstance(a, str) else a for a in o["pars"]]
-            kw = {"select": o["s"]} if o.get("s") is not None else {}
-            op = getattr(ops, o["cls"])(*args, **kw)
-            if o.get("d"):
-                op = op.H
+            key = (o["cls"], tuple(map(str, o["pars"])), bool(o.get("d")), o.get("s"), o.get("dc"))
+            op = cache.get(key) if share else None
+            if op is None:
+                args = [p[int(a[1:])] if isinstance(a, str) else a for a in o["pars"]]
+                kw = {"select": o["s"]} if o.get("s") is not None else {}
+                if o.get("dc") is not None:
+                    kw["dark_counts"] = o["dc"]
+                op = getattr(ops, o["cls"])(*args, **kw)
+                if o.get("d"):
+                    op = op.H
+                cache[key] = op
             op | tuple(q[j] for j in o["regs"])
     return prog
+
+
+def inputs_of(prog):
+    """the objects the user handed to the program (must never be changed by any call)"""
+    return dict(params=[[canon_par(v) for v in a] for a in prog.tdm_params], N=[int(n) for n in prog.N],
+                shift=prog.shift)
 
 
 def canon_par(v):
@@ -80,7 +96,7 @@ def band_starts(N):
     return out
 
 
-def gen_spec(rng, ints, N=None, T=None, shift=None, measure=True, single_band=False, max_ops=6):
+def gen_spec(rng, ints, N=None, T=None, shift=None, measure=True, single_band=False, max_ops=6, mz=False, off_head=0.0):
     """random rolled program; `ints`: integer-valued arguments (exactly comparable with the model)"""
     if N is None:
         N = rng.choice([n for n in N_CHOICES if len(n) == 1] if single_band else N_CHOICES)
@@ -120,14 +136,19 @@ def gen_spec(rng, ints, N=None, T=None, shift=None, measure=True, single_band=Fa
             ops.append(dict(cls="Rgate", regs=[rng.randrange(C)], pars=[pv()], d=rng.random() < 0.25))
         elif k < 0.9:
             ops.append(dict(cls="Sgate", regs=[rng.randrange(C)], pars=[squeeze(), pv()], d=rng.random() < 0.25))
-        else:
+        elif k < 0.95 or ints or C < 2 or not mz:
             ops.append(dict(cls="Dgate", regs=[rng.randrange(C)], pars=[squeeze() if not ints else rng.randint(0, 2), pv()]))
+        else:  # a gate whose inverse is NOT "negate the first argument"
+            a, b = rng.sample(range(C), 2)
+            ops.append(dict(cls="MZgate", regs=[a, b], pars=[pv(), angle()], d=rng.random() < 0.6))
     if measure:
         # measure the leading mode of each band, after the last command touching that slot
         bands = list(range(len(N)))
         rng.shuffle(bands)
         for b in bands:
             head = starts[b]
+            if rng.random() < off_head:
+                head = starts[b] + rng.randrange(N[b])  # another slot of the band is the measured one
             last = max([i for i, o in enumerate(ops) if head in o["regs"]], default=-1)
             pos = rng.randint(last + 1, len(ops))
             ops.insert(pos, dict(cls="MeasureHomodyne", regs=[head], pars=[pv()]))
@@ -170,8 +191,10 @@ def explicit_loop(spec, shots, with_meas=True, force_queue=False):
     cmds, info = [], []
     heads_measured = {o["regs"][0] for o in ops if is_meas(o)}
     is_int = isinstance(spec["shift"], int) and not isinstance(spec["shift"], bool)
-    queue = force_queue or spec["shift"] == "default" or (
-        is_int and eff_rot(spec["shift"], C) == 1 % C and set(starts) <= heads_measured)
+    meas_slots = [o["regs"][0] for o in ops if is_meas(o)]
+    heads_only = sorted(meas_slots) == sorted(set(starts) & set(meas_slots)) and set(starts) <= heads_measured
+    queue = force_queue or (spec["shift"] == "default" and heads_only) or (
+        is_int and eff_rot(spec["shift"], C) == 1 % C and heads_only)
     if queue:
         base = [sum(G + n - 1 for n in N[:b]) for b in range(len(N))]
         n_modes = sum(G + n - 1 for n in N)
@@ -202,6 +225,8 @@ def explicit_loop(spec, shots, with_meas=True, force_queue=False):
                 cmds.append((o["cls"], pars, modes, bool(o.get("d"))))
         if is_int:
             content = py_rot(content, spec["shift"])
+        elif spec["shift"] == "default":  # every band moves one step towards its head, the head goes to the tail
+            content = [content[starts[band_of[j]] + (off_of[j] + 1) % N[band_of[j]]] for j in range(C)]
     return nxt, cmds, info
 
 
